@@ -298,5 +298,9 @@ func (e *env) firstTouch() {
 }
 
 func (e *env) failFT(item, witness, format string, args ...any) {
-	panic(abort{&violation{monitor: "first-touch", item: item, detail: fmt.Sprintf(format, args...), witness: witness}})
+	monitor := "first-touch"
+	if strings.HasPrefix(item, "search-stress: ") {
+		monitor, item = "search-stress", strings.TrimPrefix(item, "search-stress: ")
+	}
+	panic(abort{&violation{monitor: monitor, item: item, detail: fmt.Sprintf(format, args...), witness: witness}})
 }
